@@ -125,11 +125,27 @@ func (c *Ctx) Value(any) any { return nil }
 type YieldReader struct {
 	K     *kernel.K
 	Inner dns.Reader
+	Slow  time.Duration // > 0: the point takes up to this much simulated time (a stalled node), so that traffic keeps arriving meanwhile
+}
+
+// stall sleeps a PRNG-chosen part of d in simulated time.
+//
+//go:norace
+func stall(k *kernel.K, d time.Duration, site string) {
+	if d <= 0 {
+		return
+	}
+	k.Lock()
+	x := time.Duration(k.Env.Int64N(int64(d) + 1))
+	k.BumpLocked("fault.stalled_task")
+	k.Unlock()
+	k.Sleep(site, x)
 }
 
 //go:norace
 func (r *YieldReader) ReadTCP(conn net.Conn, timeout time.Duration) ([]byte, error) {
 	r.K.Yield("reader.preTCP", 0)
+	stall(r.K, r.Slow, "reader.stall")
 	return r.Inner.ReadTCP(conn, timeout)
 }
 
@@ -141,13 +157,19 @@ func (r *YieldReader) ReadUDP(conn *net.UDPConn, timeout time.Duration) ([]byte,
 //go:norace
 func (r *YieldReader) ReadPacketConn(conn net.PacketConn, timeout time.Duration) ([]byte, net.Addr, error) {
 	r.K.Yield("reader.prePC", 0)
+	stall(r.K, r.Slow, "reader.stall")
 	return r.Inner.(dns.PacketConnReader).ReadPacketConn(conn, timeout)
 }
 
-type Decorator struct{ K *kernel.K }
+type Decorator struct {
+	K    *kernel.K
+	Slow time.Duration
+}
 
 //go:norace
-func (d *Decorator) Decorate(inner dns.Reader) dns.Reader { return &YieldReader{K: d.K, Inner: inner} }
+func (d *Decorator) Decorate(inner dns.Reader) dns.Reader {
+	return &YieldReader{K: d.K, Inner: inner, Slow: d.Slow}
+}
 
 // Flag is a kernel.Cond over a bool.
 type Flag struct{ V *bool }
@@ -167,10 +189,14 @@ func ErrStr(err error) string {
 
 // YieldAccept is the default accept policy preceded by a scheduling point: it
 // sits between the server's header parse and its decode of the body.
-type YieldAccept struct{ K *kernel.K }
+type YieldAccept struct {
+	K    *kernel.K
+	Slow time.Duration
+}
 
 //go:norace
 func (y *YieldAccept) Accept(dh dns.Header) dns.MsgAcceptAction {
 	y.K.Yield("accept", 0)
+	stall(y.K, y.Slow, "accept.stall")
 	return dns.DefaultMsgAcceptFunc(dh)
 }
